@@ -25,7 +25,7 @@ MIN_NONTRIVIAL = {"quick": 300, "thorough": 3000}
 REQUIRED_FUNCTIONS = ["program.py:BlackbirdProgram.serialize", "program.py:numpy_to_blackbird", "program.py:_format_value"]
 FUNCTIONS = REQUIRED_FUNCTIONS + ["listener.py:BlackbirdListener.exitStatement", "auxiliary.py:_get_arguments"]
 REQUIRED_TAGS = ["kwarg-list", "param-arg", "regref-arg", "array-arg", "target-options", "tdm", "loop", "param-in-list", "param-multi",
-                 "twin-arrays:reshape", "twin-arrays:zeros", "twin-arrays:identical", "twin-arrays:int-vs-float"]
+                 "twin-arrays:reshape", "twin-arrays:zeros", "twin-arrays:identical", "twin-arrays:int-vs-float", "cancelling"]
 ASSUMPTIONS = ["validity and domain of the input script are decided by the reference interpreter (finite values, no cancelling parameter/register, no function of a symbol)",
                "symbolic values are compared numerically at generic points with relative tolerance 1e-9 (float printing precision)"]
 GENERATIONS = {"quick": 3, "thorough": 6}
@@ -173,6 +173,117 @@ def check_text(ctx, text, tags=()):
         ctx.violation(res[0], res[1], {"text": text})
 
 
+CANCEL_NAMES = ["a", "b", "r", "rr", "phi", "E", "I", "S", "alpha", "p0", "x1", "theta", "e", "N", "zeta_2"]
+
+
+def add_cancelling(rng, text, grm):
+    """Append statements in which a template parameter or a measured register cancels identically, with real and
+    complex coefficients, in positional, keyword and list positions.  The reference puts such scripts outside the
+    domain of the strict comparison (the implementation still *reports* a parameter that cancelled); they are judged
+    by roundtrip_cancelling instead."""
+    g = gen.Gen(rng, grm, complex=True)
+    words = set(__import__("re").findall(r"[A-Za-z_][A-Za-z_0-9]*", text))
+    names = [n for n in CANCEL_NAMES if n not in words]
+    rng.shuffle(names)
+    lines, forms = [], set()
+
+    def coef():
+        return g.num_lit(rng.choice(["i", "f", "c", "c", "fc"]))
+
+    def one():
+        k = rng.random()
+        if k < 0.75:
+            x, y = "{%s}" % names[0], "{%s}" % names[1 % len(names)]
+            kind_ = "param"
+        else:
+            x, y = "q%d" % rng.choice([0, 1, 7, 12]), "q%d" % rng.choice([2, 3, 40])
+            kind_ = "reg"
+        c, d = coef(), coef()
+        form = rng.choice(["x-x", "x/x", "c*x/x", "(x+c)-x", "x*0", "x**0", "c+x-x", "c*(x-x)+d", "xy/yx", "x/x*y", "c*x-c*x+d", "-(x/x)*c", "(x-x)*y+c"])
+        forms.add(kind_ + ":" + form)
+        return {
+            "x-x": "%s - %s" % (x, x), "x/x": "%s / %s" % (x, x), "c*x/x": "%s * %s / %s" % (c, x, x),
+            "(x+c)-x": "(%s + %s) - %s" % (x, c, x), "x*0": "%s * 0" % x, "x**0": "%s ** 0" % x,
+            "c+x-x": "%s + %s - %s" % (c, x, x), "c*(x-x)+d": "%s * (%s - %s) + %s" % (c, x, x, d),
+            "xy/yx": "(%s * %s) / (%s * %s)" % (x, y, y, x), "x/x*y": "%s / %s * %s" % (x, x, y),
+            "c*x-c*x+d": "%s * %s - %s * %s + %s" % (c, x, c, x, d), "-(x/x)*c": "-(%s / %s) * %s" % (x, x, c),
+            "(x-x)*y+c": "(%s - %s) * %s + %s" % (x, x, y, c),
+        }[form]
+
+    if len(names) < 2:
+        return None, []
+    for _ in range(rng.choice([1, 2, 3])):
+        pos = [one() for _ in range(rng.choice([0, 1, 2]))]
+        kws = []
+        if rng.random() < 0.6:
+            kws.append("kc=%s" % one())
+        if rng.random() < 0.4:
+            kws.append("lc=[%s]" % ", ".join(one() if rng.random() < 0.7 else coef() for _ in range(rng.choice([1, 2, 3]))))
+        if not pos and not kws:
+            pos = [one()]
+        lines.append("Cancel(%s) | %s" % (", ".join(pos + kws), rng.choice(["0", "[1, 2]", "3, 0"])))
+        rng.shuffle(names)
+    return text.rstrip("\n") + "\n" + "\n".join(lines) + "\n", sorted("cancel:" + f for f in forms)
+
+
+def roundtrip_cancelling(text, gens, g):
+    """Round trip of a script in which parameters/registers cancel identically.  Demanded: serialising and loading
+    again succeed; name, version, target, type, operation sequence, modes, argument structure are the same; every
+    value is numerically the same (a constant SymPy expression and the number it denotes count as equal); no
+    parameter appears that was not there; and from the reloaded program on, the strict round trip holds (its text is
+    a script the implementation itself wrote, without cancelling symbols).  Not demanded: that a parameter which
+    cancelled everywhere is still reported."""
+    import blackbird
+
+    prog, exc = common.real_loads(text)
+    if exc is not None:
+        return ("cancelling:load-raises:" + common.exc_key(exc), "loads() raised %s on a valid script with cancelling symbols" % common.exc_text(exc))
+    c1 = content.program_content(prog)
+    try:
+        t = blackbird.dumps(prog)
+    except Exception as e:
+        if has_symbolic_array(c1) and isinstance(e, (ValueError, KeyError, TypeError)):
+            return ("array-with-parameter-unserialisable", "dumps() raised %s for a program holding an array with parameter elements" % common.exc_text(e))
+        return ("cancelling:dumps-raises:" + common.exc_key(e), "dumps() raised %s" % common.exc_text(e))
+    ok, bad, toks = g.is_sentence(t)
+    nxt, exc = common.real_loads(t)
+    if exc is not None:
+        return ("cancelling:reload-raises:" + common.exc_key(exc), "loads(dumps(P)) raised %s%s; text=%r" % (common.exc_text(exc), "" if ok else " (serialised text is not a sentence of the grammar)", t[:400]))
+    if not ok:
+        return ("cancelling:not-a-sentence-but-loaded", "serialised text is not a sentence of the grammar, yet it loaded")
+    c2 = content.program_content(nxt)
+    d = content.diff_real(c1, c2, content.Cfg(numbers="exact", sym_rtol=1e-9, seed="C01c", mixed_sym=True), skip=("parameters",))
+    if d:
+        return ("cancelling:" + common.diff_key(d), "generation 1 vs 2: %s; text=%r" % (common.diff_text(d), t[:400]))
+    extra = set(c2["parameters"]) - set(c1["parameters"])
+    if extra:
+        return ("cancelling:new-parameters", "the reloaded program reports parameters %s the original did not" % sorted(extra))
+    lost = (set(c1["parameters"]) - set(c2["parameters"])) & symbols_in_operations(c1)
+    if lost:
+        return ("cancelling:lost-parameters", "parameters %s occur in the operations' values but are not reported after the round trip" % sorted(lost))
+    res = roundtrip(t, max(1, gens - 1), g)
+    if res:
+        return ("cancelling:later:" + res[0], "from the reloaded program on: " + res[1])
+    return None
+
+
+def check_cancelling(ctx, text, tags):
+    g = common.grammar()
+    kind = common.classify(text)
+    if kind[0] == "ok":
+        # nothing cancelled after all (e.g. the coefficient made the term vanish otherwise): judge it strictly
+        check_text(ctx, text, tags=tags)
+        return
+    if kind[0] != "ood" or "cancels identically" not in kind[1]:
+        ctx.out_of_domain("cancelling lane: %s" % (kind[1].split(" (")[0] if kind[0] == "ood" else kind[0]))
+        return
+    ctx.case(text, True, tags=list(tags) + ["cancelling"])
+    ctx.sample({"script": text, "lane": "cancelling"}, limit=1)
+    res = roundtrip_cancelling(text, GENERATIONS.get(ctx.tier, 3), g)
+    if res:
+        ctx.violation(res[0], res[1], {"text": text, "lane": "cancelling"})
+
+
 def add_twin_arrays(rng, text):
     """Append arrays that are equal in some sense (same elements in another shape, same zeros in another
     type, identical twins) and pass them to one operation: a serialiser that merges 'equal' arrays shows here."""
@@ -216,9 +327,16 @@ def run(ctx):
         if rng.random() < 0.12:
             text, extra = add_twin_arrays(rng, text)
         check_text(ctx, text, tags=extra)
+        if i % 10 == 3 and common.classify(text)[0] == "ok":
+            t2, tg = add_cancelling(ctx.rng("cancel/%d" % i), text, g)
+            if t2:
+                check_cancelling(ctx, t2, tg)
     ctx.observe("uncheckable symbolic comparisons", content.UNCHECKABLE[0])
 
 
 def replay(w):
+    if w.get("lane") == "cancelling":
+        res = roundtrip_cancelling(w["text"], 6, common.grammar())
+        return None if res is None else "%s: %s" % res
     res = roundtrip(w["text"], 6, common.grammar())
     return None if res is None else "%s: %s" % res
